@@ -281,6 +281,23 @@ def c18_d(ctx):
               node=rr[0] if rr else eo.node)
     re_ = ctx.fn(T + ':run_external')
     exr = ctx.ex(re_)
+    runs = ctx.calls(re_, 'subprocess.run(*_)')
+    okr = False
+    for c in runs:
+        star = [k for k in c.keywords if k.arg is None]
+        if star and isinstance(star[0].value, ast.Name):
+            nm = star[0].value.id
+            ups = [u for u in ctx.calls(re_, name='update') if isinstance(u.func.value, ast.Name)
+                   and u.func.value.id == nm and u.args and
+                   contains(exr.term(u.args[0]), 'subprocess_kwargs')]
+            if ups and ctx.must_precede(re_, ups, c):
+                okr = True
+        elif star and contains(exr.term(star[0].value), 'subprocess_kwargs'):
+            okr = True
+    ctx.check(okr, re_, 'subprocess options reach subprocess.run',
+              'defaults updated with subprocess_kwargs, then **passed',
+              'the subprocess options (stdout pipe) are not passed to subprocess.run', fn=re_,
+              node=runs[0] if runs else re_.node)
     out = [n for n in own_nodes(re_.node) if isinstance(n, ast.Assign) and
            match(exr.raw(n.value), pattern('_c.stdout')) is not None]
     ok = bool(out) and any(pol and t == ('param', 'stdout') for (t, pol, _) in ctx.guards(re_, out[0]))
